@@ -227,6 +227,15 @@ fn network_case(rng: &mut Rng, idx: u64, out: &mut Out) {
             out.count("networks_that_are_convolution_stacks", 1);
         }
     }
+    // a dropout rate on a layer concerns training only: prediction must not depend on it
+    if idx % 4 == 1 {
+        for l in cfg.layers.iter_mut() {
+            if rng.chance(0.4) {
+                l.set_dropout(Some(*rng.pick(&[0.0f32, 0.3, 0.9, 1.0])));
+            }
+        }
+        out.count("networks_with_dropout_rates_configured_(prediction_only)", 1);
+    }
     let params = gen_params(&cfg, rng, -1.5, 1.5).unwrap();
     let mut x = random_input(rng, cfg.input);
     // every eighth network: inputs from a small dyadic palette (exact ones, halves, values that
@@ -336,7 +345,7 @@ impl Monitor for C02 {
         vec![("layers", tier.pick(486_000, 4_860_000)), ("large", tier.pick(6_000, 120_000)), ("networks", tier.pick(60_000, 600_000))]
     }
     fn rule(&self) -> &'static str {
-        "layers: case i -> layer kind (dense, conv, deconv, pool; conv and deconv twice as often), activation (i/6 mod 6, soft-max over the whole layer output included), geometry from the covering walk over the 108 per-axis (kernel 1..3, stride 1..3, padding 0..3, dilation 1..3) tuples on each axis independently (rectangular kernels, asymmetric stride/padding/dilation), channels/filters 1..3, extents from the smallest valid one up to 8, repetition-free weights and inputs in [-1.5,1.5] (one case in eight: inputs, one in sixteen: parameters too, from the dyadic palette {-2,-1,-0.5,0,0.5,1,2}), inputs scaled by 1 / 1e-12 / 1e-6 / 1e6 / 1e12 / 1e-30 / 1e-38 (products become subnormal) / 1e30; the layer's public forward is called with the 3-D tensor and with its row-major flattening; pre- and post-activation must lie within the running f32 error bound (refmodel::E) of the gather-form reference operator and have its shape. large: the same check on layers that are large in one direction - dense layers with inputs or outputs from {31..33, 63..66, 127..130, 255..257, 511, 513, 1023, 1025, 2047, 2049, 4095..4097, 8193} or random up to 9000, spatial layers with one extent from the same list up to 257 (the other 1..6), 1..17 channels and filters, kernels 1..7, stride 1..5, padding 0..4, dilation 1..4 (reference work bounded by 4e5 multiply-adds per case). networks: random sequences (depth 1..5, dense->spatial and spatial->dense transitions) - predict and every intermediate output of forward vs the composed reference, predict == manual composition of the layers' own forward (bit-exact), flat input representation too; every second network additionally answers a call sequence on the same object (another input, the first input again - bit-equal to its first answer -, then replaced parameters: reference at the current input and parameters). Distinct = distinct configuration descriptors."
+        "layers: case i -> layer kind (dense, conv, deconv, pool; conv and deconv twice as often), activation (i/6 mod 6, soft-max over the whole layer output included), geometry from the covering walk over the 108 per-axis (kernel 1..3, stride 1..3, padding 0..3, dilation 1..3) tuples on each axis independently (rectangular kernels, asymmetric stride/padding/dilation), channels/filters 1..3, extents from the smallest valid one up to 8, repetition-free weights and inputs in [-1.5,1.5] (one case in eight: inputs, one in sixteen: parameters too, from the dyadic palette {-2,-1,-0.5,0,0.5,1,2}), inputs scaled by 1 / 1e-12 / 1e-6 / 1e6 / 1e12 / 1e-30 / 1e-38 (products become subnormal) / 1e30; the layer's public forward is called with the 3-D tensor and with its row-major flattening; pre- and post-activation must lie within the running f32 error bound (refmodel::E) of the gather-form reference operator and have its shape. large: the same check on layers that are large in one direction - dense layers with inputs or outputs from {31..33, 63..66, 127..130, 255..257, 511, 513, 1023, 1025, 2047, 2049, 4095..4097, 8193} or random up to 9000, spatial layers with one extent from the same list up to 257 (the other 1..6), 1..17 channels and filters, kernels 1..7, stride 1..5, padding 0..4, dilation 1..4 (reference work bounded by 4e5 multiply-adds per case). networks: random sequences (depth 1..5, dense->spatial and spatial->dense transitions) - predict and every intermediate output of forward vs the composed reference, predict == manual composition of the layers' own forward (bit-exact), flat input representation too; every fourth network has dropout rates configured on random layers (irrelevant for prediction); every second network additionally answers a call sequence on the same object (another input, the first input again - bit-equal to its first answer -, then replaced parameters: reference at the current input and parameters). Distinct = distinct configuration descriptors."
     }
     fn assumptions(&self) -> Vec<&'static str> {
         vec!["'the same result for flat and CxHxW input' is decided by comparing both with the reference within the rounding bound (bit-identity is recorded, not demanded)", "harness built with overflow checks on (debug-profile integer semantics)"]
